@@ -650,7 +650,8 @@ def u_sac_iteration(ctx):
             gamma = float(ctx.rng.choice([0.5, 0.9, 0.99]))
             alpha = float(ctx.rng.choice([0.05, 0.2, 1.0, 1e-3, 20.0]))
             E, S = int(ctx.rng.integers(1, 3)), int(ctx.rng.integers(1, 3))
-            algo = SAC(buffer_size=16 * E, batch_size=4, gamma=gamma, learning_starts=4, num_envs=E, num_steps=S,
+            cap_ = [16, 5, 4, 7][i % 4]  # small capacities: the judged iteration samples from a ring that has wrapped
+            algo = SAC(buffer_size=cap_ * E, batch_size=4, gamma=gamma, learning_starts=4, num_envs=E, num_steps=S,
                        q_width_size=8, q_depth=1, initial_alpha=alpha, policy_frequency=2, autotune=False, q_lr=1e-2)
             pol = _stub_policy(env, float(ctx.rng.uniform(0.5, 2)), float(ctx.rng.uniform(0.5, 3)))
             cb = algo.consolidate_callbacks(None)
@@ -658,15 +659,23 @@ def u_sac_iteration(ctx):
             osz, asz = env.observation_space.flat_size, env.action_space.flat_size
             t1 = SoftQNetwork(osz, asz, width_size=8, depth=1, key=ctx.key(100 + i))
             t2 = SoftQNetwork(osz, asz, width_size=8, depth=1, key=ctx.key(200 + i))
+            it_ = eqx.filter_jit(lambda s, k: algo.iteration(s, key=k, callback=cb))
+            n_warm = [0, 3, 6, 4][i % 4]
+            for w_ in range(n_warm):  # earlier iterations: more collection, the ring wraps (several laps for cap 4-5)
+                st = it_(st, ctx.key(5000 + 10 * i + w_))
+            if (4 + (n_warm + 1) * S) > cap_:
+                ctx.monitor("sac_iteration_judged_on_a_wrapped_ring")
             st = eqx.tree_at(lambda s: (s.qf1_target, s.qf2_target), st, (t1, t2))
+            jax.effects_barrier()
             spy.calls.clear()
-            st2 = eqx.filter_jit(lambda s, k: algo.iteration(s, key=k, callback=cb))(st, ctx.key(300 + i))
+            st2 = it_(st, ctx.key(300 + i))
             jax.effects_barrier()
             if len(spy.calls) != 1 or spy.calls[0][1] is None:
                 ctx.inconc("spy saw no targets during iteration()")
                 continue
             batch, got = spy.calls[0]
-            want, b = sac_target_ref(pol, [st.qf1, st.qf2, st.qf1_target, st.qf2_target], batch, gamma, alpha)
+            pol_now = st.policy  # the warm-up iterations may have trained the actor
+            want, b = sac_target_ref(pol_now, [st.qf1, st.qf2, st.qf1_target, st.qf2_target], batch, gamma, alpha)
             ctx.case({"gamma": gamma, "alpha": alpha, "E": E, "S": S, "i": i}, nontrivial=True, cls="sac-iteration")
             ctx.monitor("sac_iteration_targets_observed")
             # end to end: the s' that V' is evaluated at is the successor the environment actually reached from
@@ -704,8 +713,8 @@ def u_sac_iteration(ctx):
                                   {"got": got[jw], "want": want_true[jw], "truly_terminated": bool(term_true[jw]),
                                    "stored_done": bool(d_b[jw]), "stored_timeout": bool(t_b[jw]), "gamma": gamma})
             if np.max(np.abs(got - want)) > 1e-5 + 2e-4 * np.max(np.abs(want)):
-                alt, _ = sac_target_ref(pol, [st.qf1, st.qf2, st.qf1, st.qf2_target], batch, gamma, alpha)
-                alt2, _ = sac_target_ref(pol, [st.qf1, st.qf2, st.qf1, st.qf2], batch, gamma, alpha)
+                alt, _ = sac_target_ref(pol_now, [st.qf1, st.qf2, st.qf1, st.qf2_target], batch, gamma, alpha)
+                alt2, _ = sac_target_ref(pol_now, [st.qf1, st.qf2, st.qf1, st.qf2], batch, gamma, alpha)
                 key = "sac-iteration-targets-not-from-target-critics"
                 if np.max(np.abs(got - alt)) <= 1e-5 + 2e-4 * np.max(np.abs(alt)) or np.max(np.abs(got - alt2)) <= 1e-5 + 2e-4 * np.max(np.abs(alt2)):
                     key = "sac-iteration-uses-online-critic-as-target"
@@ -722,6 +731,7 @@ def u_sac_iteration(ctx):
     ctx.require("sac_iteration_targets_observed", 3)
     ctx.require("sac_iteration_truncated_bootstrap_states_checked", 1)
     ctx.require("sac_iteration_samples_terminated_and_truncated_at_once", 1)
+    ctx.require("sac_iteration_judged_on_a_wrapped_ring", 3)
 
 
 def run_unit(name, ctx):
